@@ -67,7 +67,10 @@ class BuildError(Exception):
 
 
 class Lock:
-    def __init__(self, name):
+    """flock on _build/<name>.lock; shared=True takes a read lock (several readers of the compiled theories - compiling a
+    props file, extraction - may run at once; `make`, which rewrites .vo files, takes the exclusive lock)."""
+    def __init__(self, name, shared=False):
+        self.shared = shared
         lockdir = os.path.join(VERIF, "_build")   # one lock directory whatever VERIF_BUILD says (coq/ is shared)
         os.makedirs(lockdir, exist_ok=True)
         os.makedirs(BUILD, exist_ok=True)
@@ -75,7 +78,7 @@ class Lock:
 
     def __enter__(self):
         self.f = open(self.path, "w")
-        fcntl.flock(self.f, fcntl.LOCK_EX)
+        fcntl.flock(self.f, fcntl.LOCK_SH if self.shared else fcntl.LOCK_EX)
         return self
 
     def __exit__(self, *a):
@@ -171,7 +174,7 @@ def compile_prop(pid):
     """Compile theories/props/<pid>.v on its own, capture Print Assumptions output.
     Returns dict(theorems=[...], axioms=set(...), closed=int, ok=bool, log=str)."""
     src = os.path.join(PROPS, pid + ".v")
-    with Lock("coq"):
+    with Lock("coq", shared=True), Lock("prop_" + pid):
         p = sh("ulimit -v 16000000; exec timeout 900 coqc %s %s" % (" ".join(coq_flags()), os.path.relpath(src, COQ)),
                cwd=COQ, check=False)
     out = p.stdout or ""
@@ -197,7 +200,7 @@ def compile_prop(pid):
 
 def coqchk(pid, timeout=3000):
     """Re-checks the compiled props/<pid>.vo and everything it depends on with Coq's independent checker (thorough tier)."""
-    with Lock("coq"):
+    with Lock("coq", shared=True), Lock("coqchk"):
         p = sh("ulimit -v 24000000; exec timeout %d coqchk -silent -o %s Burrow.props.%s" % (timeout, " ".join(coq_flags()), pid),
                cwd=COQ, check=False)
     return p.returncode == 0, p.stdout or ""
@@ -218,7 +221,7 @@ def coqchk_axioms(txt):
 def build_driver(layer):
     """Extract the layer's model (coq/extract/<layer>.v, ExtrOcamlBasic only) and build its driver binary
     (_build/ocaml/<layer>/driver) from ocaml/vutil.ml + ocaml/drv_<layer>.ml."""
-    with Lock("coq"):
+    with Lock("coq", shared=True), Lock("driver_" + layer):
         odir = os.path.join(BUILD, "ocaml", layer)
         os.makedirs(odir, exist_ok=True)
         ext = os.path.join(COQ, "extract", layer + ".v")
